@@ -5,6 +5,7 @@ package c20
 // inline formatting masks.
 
 import (
+	"bytes"
 	"strings"
 	"unicode"
 
@@ -13,6 +14,7 @@ import (
 	"github.com/yuin/goldmark/extension"
 	extast "github.com/yuin/goldmark/extension/ast"
 	"github.com/yuin/goldmark/text"
+	"github.com/yuin/goldmark/util"
 )
 
 const (
@@ -49,11 +51,46 @@ func (w *inl) add(s string, mask int) {
 	}
 }
 
+// literal resolves backslash escapes and entity references of a text segment, as a CommonMark renderer does
+// (goldmark keeps them raw in the AST and resolves them when it writes text).
+func literal(seg []byte) string {
+	var out []byte
+	for i := 0; i < len(seg); {
+		c := seg[i]
+		if c == '\\' && i+1 < len(seg) && util.IsPunct(seg[i+1]) {
+			out = append(out, seg[i+1])
+			i += 2
+			continue
+		}
+		if c == '&' {
+			if j := bytes.IndexByte(seg[i:], ';'); j > 1 && j <= 33 {
+				ent := seg[i : i+j+1]
+				r := util.ResolveNumericReferences(ent)
+				if bytes.Equal(r, ent) {
+					r = util.ResolveEntityNames(ent)
+				}
+				if !bytes.Equal(r, ent) {
+					out = append(out, r...)
+					i += j + 1
+					continue
+				}
+			}
+		}
+		out = append(out, c)
+		i++
+	}
+	return string(out)
+}
+
 func (w *inl) walk(n ast.Node, mask int) {
 	for c := n.FirstChild(); c != nil; c = c.NextSibling() {
 		switch x := c.(type) {
 		case *ast.Text:
-			w.add(string(x.Segment.Value(w.src)), mask)
+			if mask&mC != 0 || x.IsRaw() {
+				w.add(string(x.Segment.Value(w.src)), mask) // code span content is literal
+			} else {
+				w.add(literal(x.Segment.Value(w.src)), mask)
+			}
 			if x.SoftLineBreak() || x.HardLineBreak() {
 				w.add(" ", mask)
 			}
@@ -69,6 +106,8 @@ func (w *inl) walk(n ast.Node, mask int) {
 			w.walk(x, mask|mS)
 		case *ast.CodeSpan:
 			w.walk(x, mask|mC)
+		case *ast.AutoLink:
+			w.add(string(x.Label(w.src)), mask) // <http://..> and GFM linkified www./http/e-mail: the visible text is the label
 		case *ast.RawHTML:
 			for i := 0; i < x.Segments.Len(); i++ {
 				s := x.Segments.At(i)
